@@ -71,7 +71,7 @@ def main():
     for axes in case["metric_queries"]:
         try:
             m = mg.get_metric(arr, axes)
-            sel.append(float(np.asarray(m.values).reshape(-1)[0]))
+            sel.append([float(np.asarray(m.values).reshape(-1)[0]), [str(d) for d in m.dims]])
         except Exception as e:  # noqa: BLE001
             sel.append("err:" + type(e).__name__)
     out["metric_choice"] = sel
